@@ -188,7 +188,7 @@ def big_cases(rng, thorough=False):
     """Structured instances crossing 17/65/257/801/1025/2049/65537 (depth, in-degree, multiplicity, queue length, component
     count / size).  expect = answers known by construction (also judged by the linear-time oracle below)."""
     out = []
-    deep = [802, rng.randint(803, 940), 1025, rng.randint(1100, 1500)] + ([2049, 4097] if thorough else [rng.choice([2049, 3000])])
+    deep = [802, rng.randint(803, 1000), 1025, rng.randint(1100, 1500), rng.choice([2049, 3000]), 5000] + ([20000] if thorough else [])
     mid = [17, 65, 257]
     for n in mid + deep:
         order = rng.choice(["path", "path", "rot", "rev", "shuffle"]) if n in mid else rng.choice(["path", "path", "rot"])
@@ -233,6 +233,22 @@ def big_cases(rng, thorough=False):
         out.append(_case([0, 1, 2], {0: [1] * m, 1: [2] * 3}, f"parallel({m})", 3,
                          {"n_comps": 3, "cyclic": False, "max_comp": 1, "order": [0, 1, 2]}))
         out.append(_case([0, 1], {0: [1] * m, 1: [0] * 2}, f"parallel_cycle({m})", 2, {"n_comps": 1, "cyclic": True, "max_comp": 2}))
+    # a node whose in-degree crosses 257 / 65537 and whose LAST predecessor only becomes available late
+    for m in [257, rng.choice([65535, 65536, 65537])]:
+        # a -> w (m parallel edges), a -> b, b -> w : the only order is a, b, w
+        out.append(_case([2, 1, 0], {0: [2] * m + [1], 1: [2]}, f"parallel_diamond({m})", 3,
+                         {"n_comps": 3, "cyclic": False, "max_comp": 1, "order": [0, 1, 2]}))
+        # m sources -> w ; s -> t -> w with s the last node of the iterable: w has in-degree m + 1 and must follow t
+        adj = {i: [m] for i in range(m)}
+        adj[m + 2] = [m + 1]
+        adj[m + 1] = [m]
+        out.append(_case(list(range(m + 3)), adj, f"star_in_late({m})", 3, {"n_comps": m + 3, "cyclic": False, "max_comp": 1}))
+        # the same with a cycle behind the saturated counter: w -> s closes s -> t -> w
+        adj = {i: [m] for i in range(m)}
+        adj[m + 2] = [m + 1]
+        adj[m + 1] = [m]
+        adj[m] = [m + 2]
+        out.append(_case(list(range(m + 3)), adj, f"star_in_cycle({m})", 4, {"n_comps": m + 1, "cyclic": True, "max_comp": 3}))
     k = rng.choice([1025, 2049])
     out.append(_case(rng.sample(range(k), k), {}, f"isolated({k})", 1, {"n_comps": k, "cyclic": False, "max_comp": 1}))
     # layered complete DAG: width w, l layers (w*w*(l-1) >= 2049 edges)
@@ -401,22 +417,6 @@ def big_judge(case, outs):
             if d:
                 bad.append(("cond", "condensed graph: " + d))
     return bad
-
-
-def with_depth(need, fn):
-    """Run fn with enough interpreter recursion head-room for a DFS path of `need` nodes (the module docstring of
-    solvor/scc.py tells callers to raise the recursion limit for deep graphs); the default limit is kept when it suffices."""
-    import inspect
-
-    old = sys.getrecursionlimit()
-    depth = len(inspect.stack(0))
-    bumped = need + depth + 80 > old
-    if bumped:
-        sys.setrecursionlimit(need + depth + 400)
-    try:
-        return fn(), bumped
-    finally:
-        sys.setrecursionlimit(old)
 
 
 # ------------------------------------------------------------------------------------------------ H : instrumented reference port
